@@ -1,6 +1,5 @@
 (* C04 harness support: boolean equality on decoded messages / exceptions and the per-case check evaluated by
-   checks/C04.py (vm_compute).  No proofs here; soundness of the comparison (eqb true -> equal) is proved in
-   Proofs/C04_eq_proofs.v for the parts the correspondence relies on. *)
+   checks/C04.py (vm_compute).  No proofs here; these comparisons are part of the trusted harness. *)
 From Coq Require Import ZArith List Bool String Ascii.
 From Verif Require Import Response ResponseSpec.
 Import ListNotations.
